@@ -24,19 +24,19 @@ Section Prim.
     match fuel with
     | O => throw XFuel
     | S f =>
-        r <- group_d false (u <- drawBits bitlen ;; ret (u, negb (N.leb u max))) ;;
-        if N.leb r max then ret r else unbiased_loop f bitlen max
+        u <- group_d false (u <- drawBits bitlen ;; ret (u, negb (N.leb u max))) ;;
+        if negb (N.leb u max) then unbiased_loop f bitlen max else ret u
     end.
 
+  Definition biased_fin (bl : nat) (max n u : N) : M (N * bool * bool) :=
+    let u' := if Nat.ltb 64 bl then max else u in
+    ret (u', N.eqb u' 0 && N.eqb n 1, N.eqb u' max && N.leb n (N.of_nat bl)).
   Fixpoint biased_loop (fuel bl : nat) (max n : N) : M (N * bool * bool) :=
     match fuel with
     | O => throw XFuel
     | S f =>
         u <- group_d false (u <- drawBits bl ;; ret (u, negb (Nat.ltb 64 bl || N.leb u max))) ;;
-        let u' := if Nat.ltb 64 bl then max else u in
-        if N.leb u' max
-        then ret (u', N.eqb u' 0 && N.eqb n 1, N.eqb u' max && N.leb n (N.of_nat bl))
-        else biased_loop f bl max n
+        if negb (Nat.ltb 64 bl || N.leb u max) then biased_loop f bl max n else biased_fin bl max n u
     end.
 
   Definition genUintNBiased (fuel : nat) (max : N) : M (N * bool * bool) :=
@@ -89,25 +89,32 @@ Section Prim.
 
   (* One call of more() plus the loop body, inside the iteration's standalone "@repeat" group.
      body returns Some acc' when the element is kept, None when it was rejected (reject()). *)
+  Definition rep_coin (minc maxc K : N) (count : nat) (force : bool) : M bool :=
+    if N.ltb (N.of_nat count) minc then coin K_always
+    else if force then (_ <- group false (drawBits 0) ;; ret false)   (* forced stop: records a 0 block *)
+    else if N.leb maxc (N.of_nat count) then coin K_never
+    else coin K.
+  Definition rep_reject {A} (minc K : N) (count rej : nat) (force : bool) : M (step A * bool) :=
+    (* reject(): count is back at its old value, rejections = rej + 1 *)
+    if Nat.ltb (count * 2) (S rej) then
+      if N.leb minc (N.of_nat count)
+      then (* forceStop: the next coin is recorded as a 0 block, which means "stop" for every pContinue < 1;
+              with pContinue = 1 (K = 0) a pruned replay would continue instead: flagged *)
+           _ <- (if N.eqb K 0 then mark_dirty else ret tt) ;; ret (StRej true, true)
+      else throw (XInvalid MTooManyRej)
+    else ret (StRej force, true).
+  Definition rep_tail {A} (minc K : N) (body : A -> M (option A))
+             (count rej : nat) (force : bool) (acc : A) (cont : bool) : M (step A * bool) :=
+    if cont then
+      r <- body acc ;;
+      match r with
+      | Some acc' => ret (StAcc acc', false)
+      | None => rep_reject minc K count rej force
+      end
+    else ret (StStop, false).
   Definition rep_iter {A} (minc maxc K : N) (body : A -> M (option A))
              (count rej : nat) (force : bool) (acc : A) : M (step A) :=
-    group_d true (
-      cont <- (if N.ltb (N.of_nat count) minc then coin K_always
-               else if force then (_ <- group false (drawBits 0) ;; ret false)   (* forced stop: records a 0 block *)
-               else if N.leb maxc (N.of_nat count) then coin K_never
-               else coin K) ;;
-      if cont then
-        r <- body acc ;;
-        match r with
-        | Some acc' => ret (StAcc acc', false)
-        | None =>
-            (* reject(): count is back at its old value, rejections = rej + 1 *)
-            if Nat.ltb (count * 2) (S rej) then
-              if N.leb minc (N.of_nat count) then ret (StRej true, true)
-              else throw (XInvalid MTooManyRej)
-            else ret (StRej force, true)
-        end
-      else ret (StStop, false)).
+    group_d true (cont <- rep_coin minc maxc K count force ;; rep_tail minc K body count rej force acc cont).
 
   Fixpoint rep_loop {A} (fuel : nat) (minc maxc K : N) (body : A -> M (option A))
            (count rej : nat) (force : bool) (acc : A) : M A :=
